@@ -189,7 +189,8 @@ OPS_ELEMENT = ['series.reindex', 'series.shift', 'series.assign.iloc', 'series.a
 OPS_PAIR = ['series.from_concat', 'frame.from_concat0', 'frame.from_concat1', 'frame.assign.col-array', 'frame.assign.col-series', 'frame.insert_after',
             'frame.values-row', 'frame.iloc-row', 'frame.iter_array1', 'frame.from_items', 'series.from_overlay', 'frame.from_records-rows',
             'frame.relabel-keep-dtype', 'frame.iter_tuple1', 'frame.fillna_forward1', 'frame.fillna_backward1', 'frame.assign-rows-frame-into-2d-block',
-            'frame.assign-rows-frame-into-1d-blocks', 'framego.setitem-then-rows', 'framego.extend-then-rows', 'framego.extend_items-then-rows']
+            'frame.assign-rows-frame-into-1d-blocks', 'framego.setitem-then-rows', 'framego.extend-then-rows', 'framego.extend_items-then-rows',
+            'series.from_concat-aba', 'frame.from_concat0-aba', 'index.append-via-concat-aba', 'frame.from_overlay-into-2d-float-block', 'frame.from_overlay-into-2d-object-block']
 
 
 def cases(tier):
@@ -481,6 +482,41 @@ def run_pair(case, ctx):
                          + list(zip(exp[3:], list(g.iloc[1].values))) + list(zip(exp, list(rows[0]) + list(rows[1]))) + list(zip(exp, list(tups[0]) + list(tups[1])))
                          + list(zip(exp[:3], [c[0] for c in (gt[0],)] and list(gt[0]))) + list(zip(exp[3:], list(gt[1]))))
                 untouched(ctx, opname, (str(a.dtype), str(b.dtype), str(a.dtype)), tuple(str(c.dtype) for c in columns_of(g)), info, pname, qname)
+            elif opname == 'series.from_concat-aba':
+                # three containers, the middle one of another dtype (same kind wider, or another kind)
+                r = sf.Series.from_concat((sf.Series(a, index=('x', 'y')), sf.Series(b, index=('z', 'w')), sf.Series(a, index=('u', 'v'))))
+                pairs = zip(la + lb + la, list(r.values))
+            elif opname == 'frame.from_concat0-aba':
+                r = sf.Frame.from_concat((fa, fb, fa.relabel(index=('u', 'v'))))
+                pairs = zip(la + lb + la, list(columns_of(r)[0]))
+            elif opname == 'index.append-via-concat-aba':
+                if any(is_missing(v) for v in la + lb) or len(set(map(repr, la + lb))) < 4:
+                    continue
+                r = sf.Index.from_labels if False else None
+                ia, ib = sf.Index(a), sf.Index(b)
+                r = ia.union(ib).union(ia)       # set operations concatenate label arrays of both dtypes
+                stored = list(r.values)
+                pairs = [(v, next((x for x in stored if verdict(v, x) == 'ok'), stored[0])) for v in la + lb]
+                if len(stored) != 4:
+                    pairs.append((4, len(stored)))
+            elif opname.startswith('frame.from_overlay-into-2d'):
+                # the first container holds the union of the columns in ONE 2-D block with a hole in each column; the second supplies both columns, each of its own dtype
+                if opname.endswith('float-block'):
+                    blk = np.array([[1.5, np.nan], [np.nan, 2.5]])
+                    keep = (1.5, 2.5)
+                else:
+                    blk = np.empty((2, 2), dtype=object)
+                    blk[0, 0], blk[0, 1], blk[1, 0], blk[1, 1] = 'k', None, None, 'm'
+                    keep = ('k', 'm')
+                blk.flags.writeable = False
+                f1 = sf.Frame(sf.TypeBlocks.from_blocks([blk]), index=('x', 'y'), columns=('p', 'q'), own_data=True)
+                r = sf.Frame.from_overlay((f1, fab))
+                rc = columns_of(r)
+                blockname = 'float64' if opname.endswith('float-block') else 'object'
+                # each column is a merge of the block's dtype with the dtype of the column that fills its hole
+                compare(ctx, opname, [(keep[0], rc[0][0]), (la[1], rc[0][1])], info, blockname, pname)
+                compare(ctx, opname, [(lb[0], rc[1][0]), (keep[1], rc[1][1])], info, blockname, qname)
+                continue
             elif opname == 'frame.relabel-keep-dtype':
                 r = fab.relabel(columns=('u', 'v')).rename('nn').reindex(index=('y', 'x'))
                 pairs = list(zip(la[::-1], list(columns_of(r)[0]))) + list(zip(lb[::-1], list(columns_of(r)[1])))
